@@ -6,10 +6,12 @@ import (
 	"sort"
 	"testing"
 
+	gcbor "github.com/blinklabs-io/gouroboros/cbor"
 	"github.com/blinklabs-io/gouroboros/ledger/common"
 	"pgregory.net/rapid"
 
 	"verif/harness/internal/evi"
+	"verif/harness/internal/xcbor"
 )
 
 var (
@@ -98,10 +100,14 @@ func freshAsset(rt *rapid.T, tx *TxSpec) (AssetID, bool) {
 	}
 	for try := 0; try < 4; try++ {
 		var id AssetID
-		if rapid.Bool().Draw(rt, "freshOwn") {
+		switch rapid.IntRange(0, 3).Draw(rt, "freshPolClass") {
+		case 0:
 			id.Policy = policyOfKey(payKeys[rapid.IntRange(0, 3).Draw(rt, "freshPolKey")])
-		} else {
+		case 1:
 			id.Policy = foreignPolicy(rapid.IntRange(2, 5).Draw(rt, "freshForeign"))
+		default:
+			sp := specialPolicies()
+			id.Policy = sp[rapid.IntRange(0, len(sp)-1).Draw(rt, "freshSpecial")].ID
 		}
 		id.Name = assetNames[rapid.IntRange(0, len(assetNames)-1).Draw(rt, "freshName")]
 		if !used[id] {
@@ -329,7 +335,7 @@ func c08Key(era Era, b badQty, conserving bool) string {
 
 func TestC08(t *testing.T) {
 	rec := evi.New(t, "C08", evi.Exploration,
-		"Mary..Dijkstra transactions that are valid for the era's complete rule list (funded, signed, fees/min-UTxO/sizes satisfied, certificates/withdrawals/mint as noise) into which out-of-range asset quantities are injected by construction: 'pair' (+q/-q of a fresh asset in two outputs, nothing minted), 'shift' (+d/-d of a really consumed asset), 'sum' (two UTxO entries whose quantities add up beyond 2^64-1 paid to one output), 'single' (one uncompensated bad quantity), 'collret' (Babbage+ collateral return carrying the bad quantity), 'control' (only legal quantities incl. explicit 0), 'spread' (the SAME policy+asset in 2-3 outputs, each quantity legal on its own - 2^63, 2^64-1, small, random - supplied by one UTxO entry per part). Magnitudes from the full bignum range with emphasis on 2^63 and 2^64 (+-3), plain and bignum-tagged encodings, array and map output forms. Pipeline = era decoder + VerifyTransaction with the era's UtxoValidationRules. Oracle: decode and validation accept => every output / collateral-return quantity q written in the transaction satisfies 0 <= q <= 2^64-1 (0 is pruned). In addition, for every decoded transaction the quantities observable through Outputs()/Produced()/CollateralReturn() (and each output's Cbor()) are snapshotted before validation and must be identical after the era's conservation rule, after the full rule list and after a second run of the list; both runs must give the same verdict, and an accepted transaction must still carry only quantities in 1..2^64-1. Non-trivial = some written quantity is < 0 or > 2^64-1, or one asset occurs in several outputs; distinct by (era, transaction bytes).")
+		"Mary..Dijkstra transactions that are valid for the era's complete rule list (funded, signed, fees/min-UTxO/sizes satisfied, certificates/withdrawals/mint as noise) into which out-of-range asset quantities are injected by construction: 'pair' (+q/-q of a fresh asset in two outputs, nothing minted), 'shift' (+d/-d of a really consumed asset), 'sum' (two UTxO entries whose quantities add up beyond 2^64-1 paid to one output), 'single' (one uncompensated bad quantity), 'collret' (Babbage+ collateral return carrying the bad quantity), 'control' (only legal quantities incl. explicit 0), 'spread' (the SAME policy+asset in 2-3 outputs, each quantity legal on its own - 2^63, 2^64-1, small, random - supplied by one UTxO entry per part). Magnitudes from the full bignum range with emphasis on 2^63 and 2^64 (+-3), plain and bignum-tagged encodings, array and map output forms. Pipeline = era decoder + VerifyTransaction with the era's UtxoValidationRules. Oracle: decode and validation accept => every output / collateral-return quantity q written in the transaction satisfies 0 <= q <= 2^64-1 (0 is pruned). In addition, for every decoded transaction the quantities observable through Outputs()/Produced()/CollateralReturn() (and each output's Cbor()) are snapshotted before validation and must be identical after the era's conservation rule, after the full rule list and after a second run of the list; both runs must give the same verdict, and an accepted transaction must still carry only quantities in 1..2^64-1. Policy ids come from ordinary hashes and from special values (28x00, 28xff, 27x00+01, a payment key hash), the latter also in a deterministic sweep (era x special policy x output form x {-1,-5,2^64,-2^64,2^64+1,5} x pair/single/collateral return). The harness reads every written (output, policy, name) back with Asset(policy,name), from the library's re-encoding of the output parsed with xcbor, and requires Policies()/Assets() to enumerate exactly the written non-zero pairs. Non-trivial = some written quantity is < 0 or > 2^64-1, or one asset occurs in several outputs; distinct by (era, transaction bytes).")
 	defer rec.Finish()
 	rec.Assume(
 		"the UTxO set holds only valid values (inputs are not the subject)",
@@ -338,144 +344,176 @@ func TestC08(t *testing.T) {
 	)
 	eras := []Era{Mary, Alonzo, Babbage, Conway, Dijkstra}
 
+	// deterministic sweep: special policy ids (28x00, 28xff, 27x00+01, a key hash
+	// used as address) x out-of-range quantities x output form x pair/single/collateral return
+	nSweep := 0
+	for _, era := range eras {
+		for _, sc := range c08Sweep(era) {
+			nSweep++
+			c08Judge(rec, sc.C, sc.Name, func(m string) { t.Fatalf("%s", m) },
+				func(key, what string, cs any) bool { return rec.Violation(key, what, cs) })
+		}
+	}
+	rec.SetExtra("special_policy_sweep_cases", nSweep)
+
 	rec.Check(func(rt *rapid.T) {
 		era := eras[rapid.IntRange(0, len(eras)-1).Draw(rt, "era")]
 		c, fam := genC08(rt, era)
-		tx := c.Tx
-		bad := findBad(tx)
-		conserving, _ := refBalanced(refConsumed(tx, c.P), refProduced(tx, c.P, c.SS))
-		st, err := c.state()
-		if err != nil {
-			rt.Fatalf("harness: state: %v", err)
+		c08Judge(rec, c, fam, func(m string) { rt.Fatalf("%s", m) },
+			func(key, what string, cs any) bool { return rec.Fail(rt, key, what, cs) })
+	})
+}
+
+// c08Judge runs one case through decoder + rules and applies the oracle. fail
+// is rec.Fail (rapid) or rec.Violation (deterministic sweep).
+func c08Judge(rec *evi.Recorder, c *Case, fam string, fatal func(string), fail func(key, what string, cs any) bool) {
+	era := c.Tx.Era
+	tx := c.Tx
+	bad := findBad(tx)
+	conserving, _ := refBalanced(refConsumed(tx, c.P), refProduced(tx, c.P, c.SS))
+	st, err := c.state()
+	if err != nil {
+		fatal(fmt.Sprintf("harness: state: %v", err))
+		return
+	}
+	raw, _ := tx.Encode()
+	rec.Eval()
+	rec.Class("family:" + fam)
+	for _, b := range bad {
+		rec.Class(fmt.Sprintf("written:%s:%s:%s", b.Where, b.Form, b.Class))
+		if b.Q.IsInt64() || b.Q.IsUint64() || new(big.Int).Neg(b.Q).Cmp(two64) <= 0 {
+			rec.Class("written:fits-cbor-int")
+		} else {
+			rec.Class("written:needs-bignum-tag")
 		}
-		raw, _ := tx.Encode()
-		rec.Eval()
-		rec.Class("family:" + fam)
-		for _, b := range bad {
-			rec.Class(fmt.Sprintf("written:%s:%s:%s", b.Where, b.Form, b.Class))
-			if b.Q.IsInt64() || b.Q.IsUint64() || new(big.Int).Neg(b.Q).Cmp(two64) <= 0 {
-				rec.Class("written:fits-cbor-int")
-			} else {
-				rec.Class("written:needs-bignum-tag")
-			}
-		}
+	}
+	if len(bad) > 0 {
+		h := hash256(raw)
+		rec.NonTrivial(fmt.Sprintf("%s %x", era, h[:]), map[string]any{"era": era.String(), "family": fam,
+			"bad_quantities": fmt.Sprintf("%+v", bad), "value_conserving": conserving, "tx": evi.Hex(raw)})
+	}
+	dtx, err := decodeTx(era, raw)
+	if err != nil {
 		if len(bad) > 0 {
-			h := hash256(raw)
-			rec.NonTrivial(fmt.Sprintf("%s %x", era, h[:]), map[string]any{"era": era.String(), "family": fam,
-				"bad_quantities": fmt.Sprintf("%+v", bad), "value_conserving": conserving, "tx": evi.Hex(raw)})
+			rec.Class(fmt.Sprintf("%s:bad:decode_rejected", era))
+		} else {
+			rec.Class(fmt.Sprintf("%s:clean:decode_rejected", era))
+			rec.Class("clean_decode_rejected:" + errClass(err))
 		}
-		dtx, err := decodeTx(era, raw)
-		if err != nil {
-			if len(bad) > 0 {
-				rec.Class(fmt.Sprintf("%s:bad:decode_rejected", era))
-			} else {
-				rec.Class(fmt.Sprintf("%s:clean:decode_rejected", era))
-				rec.Class("clean_decode_rejected:" + errClass(err))
-			}
+		return
+	}
+	// The harness knows which (output, policy, name) pairs it wrote: read them
+	// back one by one with Asset(policy, name) - not through Policies() - and
+	// from the library's re-encoding of each output parsed with xcbor; then
+	// require that Policies()/Assets() enumerate exactly the non-zero pairs.
+	if key, what := crossCheckAccessors(rec, tx, dtx); key != "" {
+		cs := describeCase(c)
+		cs["family"] = fam
+		if fail(fmt.Sprintf("C08:%s:%s", era, key), fmt.Sprintf("%s: %s", era, what), cs) {
 			return
 		}
-		// Observable output quantities BEFORE any rule ran ...
-		snap0 := snapshotQuantities(dtx)
-		sharedAsset := assetInSeveralOutputs(tx)
-		if sharedAsset {
-			rec.Class(fmt.Sprintf("%s:same_asset_in_several_outputs", era))
-			if len(bad) == 0 {
-				h := hash256(raw)
-				rec.NonTrivial(fmt.Sprintf("%s shared %x", era, h[:]), map[string]any{"era": era.String(), "family": fam,
-					"same_asset_in_several_outputs": true, "tx": evi.Hex(raw)})
-			}
+	}
+	// Observable output quantities BEFORE any rule ran ...
+	snap0 := snapshotQuantities(dtx)
+	sharedAsset := assetInSeveralOutputs(tx)
+	if sharedAsset {
+		rec.Class(fmt.Sprintf("%s:same_asset_in_several_outputs", era))
+		if len(bad) == 0 {
+			h := hash256(raw)
+			rec.NonTrivial(fmt.Sprintf("%s shared %x", era, h[:]), map[string]any{"era": era.String(), "family": fam,
+				"same_asset_in_several_outputs": true, "tx": evi.Hex(raw)})
 		}
-		pp := c.P.forEra(era)
-		// ... the era's conservation rule alone, then the full list, twice
-		rerr := conservationRule(era)(dtx, c.Slot, st, pp)
-		snapR := snapshotQuantities(dtx)
-		verr := common.VerifyTransaction(dtx, c.Slot, st, pp, rulesFor(era))
-		snap1 := snapshotQuantities(dtx)
-		verr2 := common.VerifyTransaction(dtx, c.Slot, st, pp, rulesFor(era))
-		snap2 := snapshotQuantities(dtx)
-		rerr2 := conservationRule(era)(dtx, c.Slot, st, pp)
-		for _, sn := range []struct {
-			after string
-			s     []string
-		}{{"the value-conservation rule", snapR}, {"the full rule list", snap1}, {"the second run of the full rule list", snap2}} {
-			if diff := diffSnapshots(snap0, sn.s); diff != "" {
-				cs := describeCase(c)
-				cs["family"] = fam
-				cs["before"] = snap0
-				cs["after"] = sn.s
-				cs["verdict_first"] = fmt.Sprint(verr)
-				cs["verdict_second"] = fmt.Sprint(verr2)
-				what := fmt.Sprintf("%s: the quantities carried by the decoded transaction's outputs (Outputs()/Produced()/CollateralReturn()) change while it is validated: after %s %s; every written quantity was within 1..2^64-1=%v, rule verdict=%v, full-list verdict=%v",
-					era, sn.after, diff, len(bad) == 0, rerr, verr)
-				if rec.Fail(rt, fmt.Sprintf("C08:%s:rule-mutates-output-quantity", era), what, cs) {
-					return
-				}
-				break
-			}
-		}
-		if (verr == nil) != (verr2 == nil) || (rerr == nil) != (rerr2 == nil) {
+	}
+	pp := c.P.forEra(era)
+	// ... the era's conservation rule alone, then the full list, twice
+	rerr := conservationRule(era)(dtx, c.Slot, st, pp)
+	snapR := snapshotQuantities(dtx)
+	verr := common.VerifyTransaction(dtx, c.Slot, st, pp, rulesFor(era))
+	snap1 := snapshotQuantities(dtx)
+	verr2 := common.VerifyTransaction(dtx, c.Slot, st, pp, rulesFor(era))
+	snap2 := snapshotQuantities(dtx)
+	rerr2 := conservationRule(era)(dtx, c.Slot, st, pp)
+	for _, sn := range []struct {
+		after string
+		s     []string
+	}{{"the value-conservation rule", snapR}, {"the full rule list", snap1}, {"the second run of the full rule list", snap2}} {
+		if diff := diffSnapshots(snap0, sn.s); diff != "" {
 			cs := describeCase(c)
 			cs["family"] = fam
-			what := fmt.Sprintf("%s: validating the same decoded transaction twice gives different verdicts: full list %v then %v; conservation rule %v then %v", era, verr, verr2, rerr, rerr2)
-			if rec.Fail(rt, fmt.Sprintf("C08:%s:second-validation-verdict-differs", era), what, cs) {
+			cs["before"] = snap0
+			cs["after"] = sn.s
+			cs["verdict_first"] = fmt.Sprint(verr)
+			cs["verdict_second"] = fmt.Sprint(verr2)
+			what := fmt.Sprintf("%s: the quantities carried by the decoded transaction's outputs (Outputs()/Produced()/CollateralReturn()) change while it is validated: after %s %s; every written quantity was within 1..2^64-1=%v, rule verdict=%v, full-list verdict=%v",
+				era, sn.after, diff, len(bad) == 0, rerr, verr)
+			if fail(fmt.Sprintf("C08:%s:rule-mutates-output-quantity", era), what, cs) {
+				return
+			}
+			break
+		}
+	}
+	if (verr == nil) != (verr2 == nil) || (rerr == nil) != (rerr2 == nil) {
+		cs := describeCase(c)
+		cs["family"] = fam
+		what := fmt.Sprintf("%s: validating the same decoded transaction twice gives different verdicts: full list %v then %v; conservation rule %v then %v", era, verr, verr2, rerr, rerr2)
+		if fail(fmt.Sprintf("C08:%s:second-validation-verdict-differs", era), what, cs) {
+			return
+		}
+	}
+	if verr == nil {
+		// whatever was accepted must (still) carry only quantities in 1..2^64-1
+		if q := firstOutOfRange(dtx); q != "" && len(bad) == 0 {
+			cs := describeCase(c)
+			cs["family"] = fam
+			if fail(fmt.Sprintf("C08:%s:accepted-tx-carries-out-of-range-quantity-after-validation", era),
+				fmt.Sprintf("%s: after acceptance the transaction's outputs carry %s although every written quantity was within 1..2^64-1", era, q), cs) {
 				return
 			}
 		}
+	}
+	if len(bad) == 0 {
 		if verr == nil {
-			// whatever was accepted must (still) carry only quantities in 1..2^64-1
-			if q := firstOutOfRange(dtx); q != "" && len(bad) == 0 {
-				cs := describeCase(c)
-				cs["family"] = fam
-				if rec.Fail(rt, fmt.Sprintf("C08:%s:accepted-tx-carries-out-of-range-quantity-after-validation", era),
-					fmt.Sprintf("%s: after acceptance the transaction's outputs carry %s although every written quantity was within 1..2^64-1", era, q), cs) {
-					return
-				}
-			}
+			rec.Class(fmt.Sprintf("%s:clean:accepted", era))
+		} else {
+			rec.Class(fmt.Sprintf("%s:clean:rejected", era))
+			rec.Class(fmt.Sprintf("clean_rejected:%s:%s", fam, errClass(verr)))
 		}
-		if len(bad) == 0 {
-			if verr == nil {
-				rec.Class(fmt.Sprintf("%s:clean:accepted", era))
-			} else {
-				rec.Class(fmt.Sprintf("%s:clean:rejected", era))
-				rec.Class(fmt.Sprintf("clean_rejected:%s:%s", fam, errClass(verr)))
-			}
-			return
+		return
+	}
+	if verr != nil {
+		rec.Class(fmt.Sprintf("%s:bad:validation_rejected", era))
+		rec.Class(fmt.Sprintf("bad_rejected:%s:conserving=%v:%s", fam, conserving, errClass(verr)))
+		return
+	}
+	rec.Class(fmt.Sprintf("%s:bad:ACCEPTED", era))
+	// report the most specific class: a negative quantity wins over an oversized one
+	pick := bad[0]
+	for _, b := range bad {
+		if b.Class == "negative" {
+			pick = b
+			break
 		}
-		if verr != nil {
-			rec.Class(fmt.Sprintf("%s:bad:validation_rejected", era))
-			rec.Class(fmt.Sprintf("bad_rejected:%s:conserving=%v:%s", fam, conserving, errClass(verr)))
-			return
+	}
+	// what the library decoded for it (information only)
+	decoded := "?"
+	var outs []common.TransactionOutput
+	if pick.Where == "output" {
+		outs = dtx.Outputs()
+	} else if cr := dtx.CollateralReturn(); cr != nil {
+		outs = []common.TransactionOutput{cr}
+	}
+	if pick.Index < len(outs) && outs[pick.Index].Assets() != nil {
+		if v := outs[pick.Index].Assets().Asset(common.Blake2b224(pick.ID.Policy), []byte(pick.ID.Name)); v != nil {
+			decoded = v.String()
 		}
-		rec.Class(fmt.Sprintf("%s:bad:ACCEPTED", era))
-		// report the most specific class: a negative quantity wins over an oversized one
-		pick := bad[0]
-		for _, b := range bad {
-			if b.Class == "negative" {
-				pick = b
-				break
-			}
-		}
-		// what the library decoded for it (information only)
-		decoded := "?"
-		var outs []common.TransactionOutput
-		if pick.Where == "output" {
-			outs = dtx.Outputs()
-		} else if cr := dtx.CollateralReturn(); cr != nil {
-			outs = []common.TransactionOutput{cr}
-		}
-		if pick.Index < len(outs) && outs[pick.Index].Assets() != nil {
-			if v := outs[pick.Index].Assets().Asset(common.Blake2b224(pick.ID.Policy), []byte(pick.ID.Name)); v != nil {
-				decoded = v.String()
-			}
-		}
-		cs := describeCase(c)
-		cs["family"] = fam
-		cs["bad_quantities"] = fmt.Sprintf("%+v", bad)
-		cs["value_conserving"] = conserving
-		what := fmt.Sprintf("%s: decoder and full rule list accept a transaction whose %s #%d (%s form) carries quantity %s of asset %s (%s; library decoded it as %s); family=%s, reference balance conserved=%v",
-			era, pick.Where, pick.Index, pick.Form, pick.Q, pick.ID, pick.Class, decoded, fam, conserving)
-		rec.Fail(rt, c08Key(era, pick, conserving), what, cs)
-	})
+	}
+	cs := describeCase(c)
+	cs["family"] = fam
+	cs["bad_quantities"] = fmt.Sprintf("%+v", bad)
+	cs["value_conserving"] = conserving
+	what := fmt.Sprintf("%s: decoder and full rule list accept a transaction whose %s #%d (%s form) carries quantity %s of asset %s (%s; library decoded it as %s); family=%s, reference balance conserved=%v",
+		era, pick.Where, pick.Index, pick.Form, pick.Q, pick.ID, pick.Class, decoded, fam, conserving)
+	fail(c08Key(era, pick, conserving), what, cs)
 }
 
 // snapshotQuantities lists every asset quantity observable on the decoded
@@ -582,4 +620,212 @@ func assetInSeveralOutputs(tx *TxSpec) bool {
 		}
 	}
 	return false
+}
+
+// ---- special policy ids ------------------------------------------------------
+
+type namedPolicy struct {
+	Name string
+	ID   [28]byte
+}
+
+// specialPolicies: ids a generator drawing hashes would never produce.
+func specialPolicies() []namedPolicy {
+	var zero, ff, one [28]byte
+	for i := range ff {
+		ff[i] = 0xff
+	}
+	one[27] = 1
+	return []namedPolicy{{"all-zero", zero}, {"all-ff", ff}, {"zero-then-01", one}, {"equals-payment-key-hash", keys[1].hash}}
+}
+
+func policyClass(p [28]byte) string {
+	for _, sp := range specialPolicies() {
+		if sp.ID == p {
+			return sp.Name
+		}
+	}
+	return "ordinary"
+}
+
+// crossCheckAccessors compares, per output (and collateral return), what the
+// harness wrote with what the decoded transaction reports (a) through
+// Asset(policy, name) for exactly the written pairs, (b) through the
+// Policies()/Assets() enumeration, (c) in the library's re-encoding of the
+// output, parsed with xcbor. Returns a finding key suffix and description.
+func crossCheckAccessors(rec *evi.Recorder, tx *TxSpec, dtx common.Transaction) (string, string) {
+	type target struct {
+		where string
+		idx   int
+		spec  Out
+		out   common.TransactionOutput
+	}
+	var ts []target
+	outs := dtx.Outputs()
+	if len(outs) != len(tx.Outs) {
+		return "decoded-output-count-differs", fmt.Sprintf("%d outputs written, %d decoded", len(tx.Outs), len(outs))
+	}
+	for i := range tx.Outs {
+		ts = append(ts, target{"output", i, tx.Outs[i], outs[i]})
+	}
+	if tx.CollRet != nil && tx.Era >= Babbage {
+		if cr := dtx.CollateralReturn(); cr != nil {
+			ts = append(ts, target{"collateral-return", 0, *tx.CollRet, cr})
+		}
+	}
+	for _, tg := range ts {
+		want := map[AssetID]*big.Int{}
+		for _, a := range tg.spec.V.Assets {
+			if a.Q.Sign() != 0 { // zero entries are pruned by the decoder
+				want[a.ID] = a.Q
+			}
+			rec.Class("written_policy:" + policyClass(a.ID.Policy))
+		}
+		as := tg.out.Assets()
+		// (a) direct lookups
+		for id, q := range want {
+			var got *big.Int
+			if as != nil {
+				got = as.Asset(common.Blake2b224(id.Policy), []byte(id.Name))
+			}
+			if got == nil || got.Cmp(q) != 0 {
+				return "decoded-quantity-differs-from-written", fmt.Sprintf("%s #%d: wrote %s of %s, Asset() returns %v", tg.where, tg.idx, q, id, got)
+			}
+		}
+		// (b) enumeration must list exactly the written non-zero pairs
+		enum := map[AssetID]bool{}
+		if as != nil {
+			for _, pol := range as.Policies() {
+				for _, name := range as.Assets(pol) {
+					enum[AssetID{Policy: [28]byte(pol), Name: string(name)}] = true
+				}
+			}
+		}
+		for id := range want {
+			if !enum[id] {
+				return "accessor-hides-asset-entry", fmt.Sprintf("%s #%d: Policies()/Assets() do not list %s (policy class %s) although Asset() returns %s for it", tg.where, tg.idx, id, policyClass(id.Policy), want[id])
+			}
+		}
+		for id := range enum {
+			if want[id] == nil {
+				return "accessor-invents-asset-entry", fmt.Sprintf("%s #%d: Policies()/Assets() list %s which was not written", tg.where, tg.idx, id)
+			}
+		}
+		// (c) the library's own re-encoding of the output
+		enc, err := gcbor.Encode(tg.out)
+		if err != nil {
+			return "output-reencode-fails", fmt.Sprintf("%s #%d: %v", tg.where, tg.idx, err)
+		}
+		got, ok := quantitiesInOutputCbor(enc)
+		if !ok {
+			return "output-reencode-unparseable", fmt.Sprintf("%s #%d: %x", tg.where, tg.idx, enc)
+		}
+		for id, q := range want {
+			if g := got[id]; g == nil || g.Cmp(q) != 0 {
+				return "reencoded-quantity-differs-from-written", fmt.Sprintf("%s #%d: wrote %s of %s, re-encoded output carries %v", tg.where, tg.idx, q, id, g)
+			}
+		}
+		for id, g := range got {
+			if want[id] == nil && g.Sign() != 0 {
+				return "reencoded-output-invents-asset-entry", fmt.Sprintf("%s #%d: re-encoded output carries %s of %s", tg.where, tg.idx, g, id)
+			}
+		}
+	}
+	return "", ""
+}
+
+// quantitiesInOutputCbor parses an encoded transaction output (array or map
+// form) with xcbor and returns its multi-asset quantities.
+func quantitiesInOutputCbor(b []byte) (map[AssetID]*big.Int, bool) {
+	n, err := xcbor.ParseExact(b)
+	if err != nil {
+		return nil, false
+	}
+	var val *xcbor.Node
+	switch n.Kind {
+	case xcbor.Array:
+		if len(n.Items) < 2 {
+			return nil, false
+		}
+		val = n.Items[1]
+	case xcbor.Map:
+		val = n.MapGet(1)
+	}
+	if val == nil {
+		return nil, false
+	}
+	out := map[AssetID]*big.Int{}
+	if val.Kind != xcbor.Array {
+		return out, true // coin only
+	}
+	if len(val.Items) != 2 || val.Items[1].Kind != xcbor.Map {
+		return nil, false
+	}
+	ma := val.Items[1]
+	for i := 0; i+1 < len(ma.Items); i += 2 {
+		pol, inner := ma.Items[i], ma.Items[i+1]
+		if pol.Kind != xcbor.Bytes || len(pol.Payload()) != 28 || inner.Kind != xcbor.Map {
+			return nil, false
+		}
+		for j := 0; j+1 < len(inner.Items); j += 2 {
+			q, ok := inner.Items[j+1].Int()
+			if !ok || inner.Items[j].Kind != xcbor.Bytes {
+				return nil, false
+			}
+			id := AssetID{Name: string(inner.Items[j].Payload())}
+			copy(id.Policy[:], pol.Payload())
+			out[id] = q
+		}
+	}
+	return out, true
+}
+
+// ---- deterministic sweep over special policy ids ---------------------------------
+
+type c08SweepCase struct {
+	Name string
+	C    *Case
+}
+
+// c08Sweep: for every era, special policy id, output form and a handful of
+// out-of-range quantities: a value-conserving pair (+q/-q), a lone bad
+// quantity, and (Babbage+) a collateral return carrying it. Coin side exact.
+func c08Sweep(era Era) []c08SweepCase {
+	var out []c08SweepCase
+	p := defaultParams(era)
+	negTwo64 := new(big.Int).Neg(two64)
+	qs := []*big.Int{big.NewInt(-1), big.NewInt(-5), new(big.Int).Set(two64), negTwo64, new(big.Int).Add(two64, big.NewInt(1)), big.NewInt(5)}
+	forms := []bool{false}
+	if era >= Babbage {
+		forms = []bool{false, true}
+	}
+	for _, sp := range specialPolicies() {
+		for _, mapForm := range forms {
+			for qi, q := range qs {
+				for _, kind := range []string{"pair", "single", "collret"} {
+					if kind == "collret" && era < Babbage {
+						continue
+					}
+					id := AssetID{Policy: sp.ID, Name: assetNames[qi%len(assetNames)]}
+					in := In{TxID: hash256([]byte("c08sweep")), Ix: 0, Key: 0, V: Val{Coin: 60_000_000}}
+					tx := &TxSpec{Era: era, Net: 0, Ins: []In{in}, Fee: p.MinFeeA*2500 + p.MinFeeB + 1000}
+					rest := in.V.Coin - tx.Fee
+					tx.Outs = []Out{{Addr: payAddr(0, 1), MapForm: mapForm, V: Val{Coin: rest / 2}}, {Addr: payAddr(0, 2), MapForm: mapForm, V: Val{Coin: rest - rest/2}}}
+					switch kind {
+					case "pair":
+						tx.Outs[0].V.Assets = []AQ{{id, new(big.Int).Set(q)}}
+						tx.Outs[1].V.Assets = []AQ{{id, new(big.Int).Neg(q)}}
+					case "single":
+						tx.Outs[1].V.Assets = []AQ{{id, new(big.Int).Set(q)}}
+					case "collret":
+						cin := In{TxID: hash256([]byte("c08sweep/coll")), Ix: 1, Key: 0, V: Val{Coin: 30_000_000}}
+						tx.Coll = []In{cin}
+						tx.CollRet = &Out{Addr: payAddr(0, 0), MapForm: mapForm, V: Val{Coin: 25_000_000, Assets: []AQ{{id, new(big.Int).Set(q)}}}}
+					}
+					out = append(out, c08SweepCase{fmt.Sprintf("sweep-%s-%s", kind, sp.Name), &Case{Tx: tx, P: p, SS: newStSpec(), Slot: 5000, UtxoMap: mapForm}})
+				}
+			}
+		}
+	}
+	return out
 }
